@@ -31,7 +31,7 @@ RULE = ("sweep: 256 message types x message lengths {0,1,2,3,8,23,24} x destinat
         "parent side, 0o100, 0o4444, invalid digit, 5 digits, 6 digits} x origin {valid, invalid} x role/level (10 UUTs: "
         "routing-only, network node at levels 0..4, unjoined mesh node, mesh master) - quick: a seeded 4 % sample, thorough: "
         "complete; plus random byte strings of 1..32 bytes, sequences of 2-6 frames (fragment types included), and for the "
-        "master truncated/oversized MESH_ADDR_LOOKUP / MESH_ID_LOOKUP / MESH_ADDR_RELEASE / MESH_ADDR_REQUEST bodies with known "
+        "master a run of MESH_ADDR_REQUESTs that exhausts one parent's children (the last ones refused) followed by unusable frames, and truncated/oversized MESH_ADDR_LOOKUP / MESH_ID_LOOKUP / MESH_ADDR_RELEASE / MESH_ADDR_REQUEST bodies with known "
         "and unknown ids; the validity predicate is evaluated for all 65 536 values (direct evaluation). Non-trivial: the frame "
         "reached the UUT's RX FIFO; distinct = distinct (role, frames, outcome)")
 ASSUMPTIONS = ["documented validity predicate: 0, 0o100/0o10/0o1000, or one to four octal digits each in 1..5",
@@ -122,6 +122,19 @@ def make(i, base_seed, tier):
         for _ in range(rng.randint(2, 6)):
             typ = rng.choice([148, 149, 150, 193, 194, 195, 128, 130, 131, 196, 197, 198, rng.getrandbits(8)])
             frames.append(_frame(rng, addr, typ, rng.choice(LENS), rng.choice(DST_CLASSES), rng.random() < 0.8))
+    elif k < 0.68:
+        # master: one parent's children all leased, one more request that has to be refused, then unusable frames
+        via = rng.choice([0o4444, 0o4444, 0o1, 0o3, 0o23])
+        ids = rng.sample(range(1, 256), 8)
+        for n in range(rng.randint(5, 8)):
+            frames.append({"hdr": [via, 0, rng.getrandbits(16), 195, ids[n]], "msg": "", "pipe": rng.randrange(6), "ack": False})
+        for _ in range(rng.randint(1, 3)):
+            if rng.random() < 0.3:
+                frames.append({"raw": bytes(rng.getrandbits(8) for _ in range(rng.randint(1, 32))).hex(), "pipe": rng.randrange(6), "ack": False})
+            else:
+                frames.append(_frame(rng, addr, rng.choice([0, 65, 130, 195, 196, 197, 198, rng.getrandbits(8)]), rng.choice(LENS),
+                                     rng.choice(DST_CLASSES), rng.random() < 0.4))
+        return {"seed": seed, "kind": "seq", "role": list(role), "frames": frames, "batch": 1}
     else:
         # master: mesh system messages with hostile bodies
         ids = [rng.randint(1, 255) for _ in range(2)]
